@@ -171,7 +171,9 @@ Definition result_spec (dirs : list bool) (distinct : bool) (B : list elt) (o : 
 Definition result_chk (dirs : list bool) (distinct : bool) (B : list elt) (o : nat) (l : option nat)
                       (rows : list row) : bool :=
   rows_chk (elt_cmp dirs) snd row_eqb distinct (map norm_elt B) o l (map norm_row rows).
-(* where the property makes a demand at all *)
+(* where the property makes a demand at all: homogeneous key columns, and the output row
+   determines the keys up to equivalence (so for DISTINCT every key is a function of the output
+   row, as standard SQL requires; without DISTINCT the generated select lists contain `id`) *)
 Definition result_defined (dirs : list bool) (distinct : bool) (B : list elt) : bool :=
   keys_homog (length dirs) (map fst B) &&
-  (if distinct then pay_fixes_key (elt_cmp dirs) snd row_eqb (map norm_elt B) else true).
+  pay_fixes_key (elt_cmp dirs) snd row_eqb (map norm_elt B).
